@@ -112,10 +112,10 @@ structure State where
   /-- bytes in flight from `a` to `b` / from `b` to `a` -/
   ab : Bytes := []
   ba : Bytes := []
-  /-- line fault: the byte at this offset of `a`'s outgoing stream is replaced by this value -/
-  fault : Option (Nat × Nat) := none
-  /-- number of bytes `a` has transmitted -/
-  sentA : Nat := 0
+  /-- line fault `(i, t, v)`: in the `i`-th transmission (0-based `send_data` call) of `a` the byte at offset `t` arrives as `v` -/
+  fault : Option (Nat × Nat × Nat) := none
+  /-- number of transmissions `a` has made -/
+  txA : Nat := 0
   /-- ghost: transmissions in order, `true` = by `a` (as sent, before the fault) -/
   log : List (Bool × Bytes) := []
 deriving DecidableEq, Repr
@@ -126,24 +126,24 @@ inductive Label
   | dlv (toA : Bool) (n : Nat)
 deriving DecidableEq, Repr
 
-/-- the line's effect on a transmission of `a` that starts at stream offset `pos` -/
-def tamper (fault : Option (Nat × Nat)) (pos : Nat) (bs : Bytes) : Bytes :=
+/-- the line's effect on the `idx`-th transmission of `a` -/
+def tamper (fault : Option (Nat × Nat × Nat)) (idx : Nat) (bs : Bytes) : Bytes :=
   match fault with
-  | some (off, v) => if pos ≤ off ∧ off < pos + bs.length then bs.set (off - pos) v else bs
+  | some (i, t, v) => if i = idx then bs.set t v else bs
   | none => bs
 
-def logTx (log : List (Bool × Bytes)) (who : Bool) (bs : Bytes) : List (Bool × Bytes) :=
-  if bs = [] then log else log ++ [(who, bs)]
+/-- endpoint `a`'s thread moved to `e` and transmitted `tx` (`[]` = nothing) -/
+def emitA (s : State) (e : End) (tx : Bytes) : State :=
+  if tx = [] then { s with a := e }
+  else { s with a := e, ab := s.ab ++ tamper s.fault s.txA tx, txA := s.txA + 1, log := s.log ++ [(true, tx)] }
+
+def emitB (s : State) (e : End) (tx : Bytes) : State :=
+  if tx = [] then { s with b := e }
+  else { s with b := e, ba := s.ba ++ tx, log := s.log ++ [(false, tx)] }
 
 def step (s : State) : Label → Option State
-  | .thr true =>
-    match thrStep s.a with
-    | some (e, tx) => some { s with a := e, ab := s.ab ++ tamper s.fault s.sentA tx, sentA := s.sentA + tx.length, log := logTx s.log true tx }
-    | none => none
-  | .thr false =>
-    match thrStep s.b with
-    | some (e, tx) => some { s with b := e, ba := s.ba ++ tx, log := logTx s.log false tx }
-    | none => none
+  | .thr true => (thrStep s.a).map (fun r => emitA s r.1 r.2)
+  | .thr false => (thrStep s.b).map (fun r => emitB s r.1 r.2)
   | .app true => (appStep s.a).map (fun e => { s with a := e })
   | .app false => (appStep s.b).map (fun e => { s with b := e })
   | .dlv true n =>
@@ -156,12 +156,12 @@ def step (s : State) : Label → Option State
     else none
 
 /-- `a` sends the encoded blocks `blocks` (one `send_message` call), `b` only receives -/
-def init (aIsHost : Bool) (blocks : List Bytes) (fault : Option (Nat × Nat) := none) : State where
+def init (aIsHost : Bool) (blocks : List Bytes) (fault : Option (Nat × Nat × Nat) := none) : State where
   a := { host := aIsHost, app := .run blocks false }
   b := { host := !aIsHost }
   fault := fault
 
-def sys (aIsHost : Bool) (blocks : List Bytes) (fault : Option (Nat × Nat) := none) : Sys State Label where
+def sys (aIsHost : Bool) (blocks : List Bytes) (fault : Option (Nat × Nat × Nat) := none) : Sys State Label where
   init := init aIsHost blocks fault
   step := step
 
